@@ -20,7 +20,7 @@ let is_equivalence = function "e" | "k" | "c" | "m" -> true | _ -> false
 
 let cmp_of mode =
   let c = match mode with
-    | "n" -> (fun (a : int) b -> compare a b)
+    | "n" | "b" | "h" | "f" | "s" -> (fun (a : int) b -> compare a b)   (* typed modes: codes in value order *)
     | "k" -> (fun a b -> compare (key a) (key b))
     | "r" -> (fun a b -> compare (key b) (key a))
     | "d" -> (fun a b -> key a - key b)
